@@ -184,6 +184,9 @@ def ode15s(dae: nDAE,
     done = False
     at_hmin = False
     while not done:
+        if _VERIF:
+            _vr = dict(t=float(t), absh_in=float(absh), abshlast_in=float(abshlast), k_in=int(k), klast_in=int(klast),
+                       nconhk_in=int(nconhk), at_hmin_in=bool(at_hmin), inner=[], temps=None)
         hmin = 16 * np.spacing(t)
         absh = np.minimum(hmax, np.maximum(hmin, absh))
         if absh == hmin:
@@ -311,6 +314,8 @@ def ode15s(dae: nDAE,
                 stats.nsolve += iter
 
                 if tooslow:
+                    if _VERIF:
+                        _vr['inner'].append(('slowJ',) if not Jcurrent else ('slowShrink',))
                     stats.nreject += 1
                     # speed up the iteration by forming new linearization or reducing dt
                     if not Jcurrent:
@@ -371,6 +376,12 @@ def ode15s(dae: nDAE,
             #         err = errNN
 
             if err > opt.rtol:  # Failed step
+                if _VERIF:
+                    _vr['inner'].append(('errFail',
+                                         float(max(0.1, 0.833 * (opt.rtol / err) ** (1 / (k + 1)))) if nofailed else 1.0,
+                                         float(max(0.1, 0.769 * (opt.rtol / (np.linalg.norm((dif[:, k - 1] + difkp1) * invwt, ord=np.inf)
+                                                                            * erconst[k - 2])) ** (1 / k)))
+                                         if (nofailed and k > 1 and not opt.normcontrol and absh > hmin) else None))
                 stats.nreject += 1
 
                 if absh <= hmin:
@@ -426,8 +437,9 @@ def ode15s(dae: nDAE,
 
         stats.nstep += 1
         if _VERIF:
-            _verif_trace.append(dict(t=float(t), tnew=float(tnew), dt=float(dt), absh=float(absh), k=int(k),
-                                     done=bool(done), err=float(err), hmax=float(hmax)))
+            _vr.update(tnew=float(tnew), dt=float(dt), absh=float(absh), k=int(k), done=bool(done), err=float(err),
+                       hmax=float(hmax), failed=(stats.ret == 'failed'))
+            _verif_trace.append(_vr)
 
         dif[:, k + 1] = difkp1 - dif[:, k]
         dif[:, k] = difkp1
@@ -529,6 +541,10 @@ def ode15s(dae: nDAE,
                     hopt = hkp1
                     kopt = k + 1
 
+            if _VERIF:
+                _vr['temps'] = (float(1.2 * (err / opt.rtol) ** (1 / (k + 1))),
+                                float(1.3 * (errkm1 / opt.rtol) ** (1 / k)) if k > 1 else None,
+                                float(1.4 * (errkp1 / opt.rtol) ** (1 / (k + 2))) if k < maxk else None)
             # update dt and order
             if hopt > absh:
                 absh = hopt
@@ -536,6 +552,8 @@ def ode15s(dae: nDAE,
                     k = kopt
                     K = k
 
+        if _VERIF:
+            _vr.update(absh_out=float(absh), k_out=int(k), nconhk_out=int(nconhk))
         # update the integration one step
         t = tnew
         y0 = y1
